@@ -406,12 +406,15 @@ PROPS["C12"] = {'claimed': True,
               "property on the implementation's transcript",
  'level_text': 'Machine-checked theorems (Coq 8.16.1, closed under the global context) over the model of src/fdl/active.rs, each for ALL station '
                'states (reachable or not), ALL inputs of a poll (time, PHY busy flag, receive buffer, applications) and ALL parameters: '
-               'C12_poll_transmissions classifies every transmission of a poll as application telegram / token / GAP status request / status reply, '
+               'C12_poll_transmissions classifies every transmission of a poll as application telegram / token / GAP status request / status reply '
+               '(since the repair of F20 the token and the GAP request also go out at the end of a poll that began in UseToken / AwaitDataResponse and '
+               'found nothing (more) to send: then the call log holds declines only), '
                'so the GAP requests are exactly the polls that transmit and end in AwaitStatusResponse a or ClaimToken::ScanAwaitResponse a; '
                'C12_poll_in_gap: for those, a is strictly between TS and NS cyclically (a <> TS, a <> NS), below HSA when TS and the cursor were, '
                'for all (TS, NS, HSA, cursor) incl. NS=TS, NS=TS-1, NS=HSA-1, TS=HSA-1, TS=0 (F1 fixed); C12_one_per_visit (history induction over '
                'arbitrary poll sequences with a ghost counter, plus the one-step facts that after a GAP request only the token TS->NS is '
-               'transmitted, that PassToken{do_gap} performs exactly one GAP step and that nothing else touches the GAP state; the post-claim scan '
+               'transmitted, that PassToken{do_gap} performs exactly one GAP step and that nothing else touches the GAP state but that step - taken from '
+               'PassToken{do_gap} or, after the F20 repair, at the end of the last poll of a token-use state; the post-claim scan '
                'issues requests back to back until Waiting); C12_sweep_bound: for 0 <= TS,NS < HSA <= 126, gap_wait_rotations 0..254 and any GAP '
                'state every GAP address is polled within |GAP| + gap_wait_rotations + 2 GAP steps without panic (ranking function; |GAP| proved to '
                'be the number of GAP addresses); C12_found_becomes_successor: an accepted reply (status Ok, master ready / in ring, from the polled '
@@ -426,8 +429,9 @@ PROPS["C12"] = {'claimed': True,
                "crate on every run by differential execution poll by poll, and the C12 monitor runs on the crate's transcripts.",
  'level_note': 'Trusted: Coq kernel, the regex translators (tables and constants of active.rs / parameters.rs), OCaml extraction + driver, Rust '
                'harness. The hand model coq/Model/Fdl.v is validated, not verified, against active.rs (differential execution on the explored '
-               "histories, 0 divergences). Theorems are about a single station's poll function; 'token visit' is abstracted as: one visit = one poll "
-               'in PassToken{do_gap: Yes} that gets past the synchronisation pause (proved to perform exactly one GAP step; the ghost-counter '
+               "histories, 0 divergences). Theorems are about a single station's poll function; 'token visit' is abstracted as: one visit = one GAP "
+               'step = one run of do_pass_token with do_gap: Yes past the synchronisation pause - reached from PassToken{do_gap: Yes} or, since the '
+               'F20 repair, directly at the end of do_use_token (proved to perform exactly one GAP step; the ghost-counter '
                'theorem shows there is at most one GAP request between token transmissions). The timing theorem assumes an idle bus after the '
                "request (empty receive buffer, PHY not busy) and polls at most P apart; the requester side of 'within the slot time' is the one-step "
                "theorem C12_requester_keeps_waiting (new bytes restart the requester's slot timer before it is tested; no time-out up to Tslot after "
@@ -870,13 +874,13 @@ PROPS["C13"] = {'claimed': True,
                '8.16.1, closed under the global context) about the Gallina model of src/fdl/active.rs, arbitrary applications. Local, one-step from '
                'ALL states: C13_hold_rule / C13_hold_rule_poll - in do_use_token and in a whole poll (incl. the time-out path) applications are '
                'asked for normal telegrams only if now < end_token_hold_time, otherwise only for high-priority telegrams and only if '
-               'first_cycle_done was false; C13_hold_over_passes - hold time over and guaranteed cycle done: nobody is asked, nothing is sent, the '
-               'state becomes PassToken; C13_deadline_as_coded - the deadline is computed once per visit as previous token time + TTR - (Tslot + 100 '
+               'first_cycle_done was false; C13_hold_over_passes - hold time over and guaranteed cycle done: nobody is asked and the rest of the poll '
+               'is do_pass_token from PassToken{do_gap, First} (F20 repair: the token is passed in the same poll); C13_deadline_as_coded - the deadline is computed once per visit as previous token time + TTR - (Tslot + 100 '
                'bit if a GAP poll is due). Local, over arbitrary histories (polls at any time with any PHY input, set_online / set_offline, user '
                'interference) with stated invariants: C13_visit_bounded - in every visit a high-priority-only round happens only after the deadline '
                'and only if no application was asked before in that visit, normal rounds only before the deadline (so at most one message cycle '
                'starts after the deadline); C13_one_gap_poll_per_visit - between two visits AwaitStatusResponse is entered (= one GAP request sent) '
-               'at most once, from PassToken. C13_deadline_constant_in_visit - all polls of a visit that ask applications see the same '
+               'at most once, in the last poll of the visit or from PassToken. C13_deadline_constant_in_visit - all polls of a visit that ask applications see the same '
                'end_token_hold_time. Global, conditional: C13_rotation_bound_conditional - for any N and any sequence of visits of a stable ring '
                'whose visits satisfy visit_ok (= per round exactly the conclusion of C13_hold_rule / C13_visit_bounded, deadline <= previous token '
                'time + TTR from C13_deadline_as_coded, plus assumed bounds C on a message cycle and O on the hand-over), every rotation takes at '
@@ -935,8 +939,9 @@ PROPS["C15"] = {'claimed': True,
                "histories) - a delivered telegram is SC or a response with SA = addressed station and DA = TS; C15_routing - in the station's call "
                'log every reply / time-out is immediately preceded by the transmit call of the same application with that address; C15_round_robin - '
                'only the application whose turn it is (= next_application) is called, the turn moves exactly at a decline to (i+1) mod n, nobody is '
-               'asked after n declines in a visit, after n declines the station is in PassToken, and a visit ends in PassToken only after n declines '
-               'or with end_token_hold_time <= now; C15_zero_apps - no application: no callback ever, never AwaitDataResponse, do_use_token passes '
+               'asked after n declines in a visit, the poll with the n-th decline passes the token on (F20 repair: it ends in a token-passing state '
+               'PassToken / AwaitStatusResponse / CheckTokenPass or, the station being its own successor, in the first state of its next visit), '
+               'and a visit ends that way only after n declines or with end_token_hold_time <= now; C15_zero_apps - no application: no callback ever, never AwaitDataResponse, do_use_token passes '
                'the token without reaching the % 0 of schedule_next_application. Non-vacuity: a concrete sending application run through the model; '
                'the acceptors reject wrong logs. The model is tied to the crate by the fdl correspondence check (0..3 scripted applications) and the '
                "C15 monitor of FdlOracle.v on the implementation's transcript.",
